@@ -217,6 +217,8 @@ class Repo(object):
                         kind = dn
                 f = self._add_func(mi, st, mi.name + "." + node.name + "." + st.name, ci, kind)
                 ci.methods[st.name] = f
+                if st.name.startswith("__") and not st.name.endswith("__"):
+                    ci.methods["_%s%s" % (node.name.lstrip("_"), st.name)] = f      # private name mangling
             elif isinstance(st, ast.Assign) and len(st.targets) == 1 and isinstance(st.targets[0], ast.Name):
                 ci.attrs[st.targets[0].id] = st.value
         return ci
